@@ -193,12 +193,14 @@ REWRITE = {
              "PARTIAL: in-memory = on-disk description is not a theorem; the model is tied to the implementation by")],
     "C08": [("PARTIAL as C04: append-only over whole histories is checked on the implementation:",
              "LIFTED over whole histories (c08_history_appends_only): whatever sessions follow a prefix of a history, every stored shard file and every shard entry of every list is still there, same list, same position, "
-             "only possibly followed by new entries. PARTIAL: that iteration then returns old+new examples is checked on the implementation:")],
+             "only possibly followed by new entries; and (c08_iteration_returns_everything_stored) unshuffled iteration of a split is a permutation of the contents of all shard files stored below it. "
+             "PARTIAL: the real readers are compared with this on the implementation:")],
     "C02": [("PARTIAL: the composition inside each as_* method, the depth-first shard list over nested lists and the tf.data/Rust paths are not theorems; they are checked by whole-pipeline runs:",
              "COMPOSED: as_numpy_common, as_numpy_iterator, as_numpy_iterator_concurrent and as_numpy_iterator_async (repeat=False) are regenerated from dataset_iteration.py as compositions of these combinators "
              "(GenPipeline.v: buffer sizes, guards, process_record placement, batches, process_and_list) and proved to yield a permutation of `every example of every selected shard, processed once` for every decoder, shuffle size, "
              "thread count, random sequence and pool completion order; under a fixed LCG seed the generated compositions equal the real interfaces element by element. "
-             "PARTIAL: the depth-first shard list over nested lists, as_tfdataset and the Rust reader are not theorems; they are checked by whole-pipeline runs:")],
+             "And for the depth-first shard list over nested lists (c02_iteration_yields_exactly_what_is_stored): after every history of the session model, unshuffled iteration of a split is a permutation of the contents of all shard files stored below it. "
+             "PARTIAL: as_tfdataset and the Rust reader are not theorems; they are checked by whole-pipeline runs:")],
     "C06": [("PARTIAL: that the library's sessions satisfy the discipline is not proved for all sessions; it is checked per run:",
              "SESSIONS (c06_every_history_publishes_in_order, c06_every_cut_is_closed): in the session model of C04 (fillers into any directory, multi-writer calls, the recursive merge; kernels regenerated from the source) "
              "the stored lists and shard files form publication logs stamped by one counter, and for every history that completes every list document ever published references only shard files (with the recorded digest) and child lists "
